@@ -30,9 +30,28 @@ HAND = [
 ]
 
 
+def cycling_cases():
+    """The cycling / degenerate tableaux of spec/simplex/library.ndjson (Beale, Kuhn, ...) as linear
+    models: the non-basic columns are non-negative variables, each basic (slack) column is a <= row.
+    The anti-cycling fallback of the tableau solver is what lets it reach a verdict on them."""
+    out = []
+    for ln in open(os.path.join(core.SPEC, "simplex", "library.ndjson")):
+        if not ln.strip():
+            continue
+        t = json.loads(ln)
+        if max(abs(x) for r in t["a"] for x in r) > 500 or t["z"] != 0:
+            continue                                   # (numbers too large for the 32-bit oracle arithmetic)
+        basis = [b - 1 for b in t["basis"]]
+        cols = [j for j in range(len(t["c"])) if j not in basis]
+        out.append({"id": "h_cyc_" + t["id"], "sense": "min", "obj": [t["c"][j] for j in cols], "off": 0, "den": t["den"],
+                    "vars": [{"name": f"v{k}", "kind": "nnreal", "lo": B(0, 0), "hi": B(1, 0)} for k in range(len(cols))],
+                    "rows": [{"a": [t["a"][i][j] for j in cols], "cmp": "le", "b": t["b"][i], "name": ""} for i in range(len(t["a"]))]})
+    return out
+
+
 def gen(tier, seed):
     meta = {}
-    cases = copy.deepcopy(HAND)
+    cases = copy.deepcopy(HAND) + cycling_cases()
     plan = [("Cont1.cfg", 350, None), ("Mixed1.cfg", 350, None), ("Cont2.cfg", 350, None), ("Mixed2.cfg", 450, None), ("Offset1.cfg", 200, None), ("Offset2.cfg", 300, None),
             ("SimMixed3.cfg", 250 if tier == "quick" else 6000, (3 if tier == "quick" else 40, 9)),
             ("SimCont3.cfg", 150 if tier == "quick" else 3000, (3 if tier == "quick" else 30, 9))]
